@@ -19,18 +19,21 @@ TOPT == VDict(<< <<VStr("opts"), VDict(<< <<VStr("a"), VInt(1)>> >>)>>, <<VStr("
 ArgSpec == SCoal(<<P("x", <<"x">>)>>, DefaultArgs(<<SProbe("id"), SRead("k")>>))
 
 FullPool == <<
-  Call(T1, <<>>, 1, P("*", <<"*">>)),                                      \* star-sensitive
   Call(OA, <<>>, 2, P("a", <<"a">>)),                                      \* registry-sensitive (get)
   Call(T1, << <<"k", VInt(7)>> >>, 3,                                      \* dict + Coalesce default container + caller scope
        SDict(<< <<"p", P("a.b", <<"a", "b">>)>>,
                 <<"q", SCoal(<<P("x", <<"x">>)>>, Default(VList(<<>>)))>>,
                 <<"r", SRead("k")>> >>)),
   Call(L12, <<>>, 4, SAcc("group", "inc")),                                \* Group accumulators
-  Call(L5, <<>>, 4, SAcc("group", "inc")),                                 \* the same spec object on another target
   Call(OA, <<>>, 6, SEach("iter", SProbe("id"))),                          \* registry-sensitive (iterate), Iter
   Call(T1, << <<"k", VInt(7)>> >>, 7, ArgSpec),                            \* list argument with sub-specs (arg_val) ...
   Call(L5, << <<"k", VInt(8)>> >>, 7, ArgSpec),                            \* ... the same object on another target / scope
   Call(TOPT, <<>>, 9, SInvoke(P("opts", <<"opts">>), "k", VInt(9))),       \* Invoke: star-kwargs from the target, then constants
+  Call(OA, <<>>, 15, P("*", <<"*">>)),                                     \* wildcard over a registrable class (keys / get handlers)
+  Call(L12, <<>>, 16, SLast(0)),                                           \* a Vars object bound, assigned into and read ...
+  Call(VList(<<>>), <<>>, 16, SLast(0)),                                   \* ... the same spec object on an empty target
+  Call(T1, <<>>, 1, P("*", <<"*">>)),                                      \* star-sensitive
+  Call(L5, <<>>, 4, SAcc("group", "inc")),                                 \* the same spec object on another target
   Call(T1, <<>>, 10, P("a.*", <<"a", "*">>)),                              \* star-sensitive, 2 segments
   Call(L12, <<>>, 11, SAcc("fold", "inc")),                                \* Fold accumulator
   Call(T1, <<>>, 12, STuple(<<P("a", <<"a">>), SBind("x", P("b", <<"b">>)),
